@@ -5,7 +5,7 @@ from ..facts import Module
 from . import kdflib
 
 LEVEL = "other"
-MAP = {"CAP": "R-C13-CAP", "SEQ": "R-C13-SEQ", "STREAM": "R-C13-STREAM", "REFUSE": "R-C13-REFUSE"}
+MAP = {"CAP": "R-C13-CAP", "SEQ": "R-C13-SEQ", "STREAM": "R-C13-STREAM", "REFUSE": "R-C13-REFUSE", "SMALL": "R-C13-SMALL"}
 
 
 def run(ck, build):
@@ -15,6 +15,9 @@ def run(ck, build):
     ck.rule("R-C13-REFUSE", "the 8-bit block counter is incremented by exactly one per block (mod 256); when it is 0 (255 blocks used) the whole remaining output is zero-filled and -1 returned, nothing generated")
     ck.rule("R-C13-STREAM", "for each of the 33 buffer positions: left-over bytes of the last block are served first from offset posn and the position advances by the bytes handed out; a generated "
             "block hands out min(32, remaining) bytes from its start; cursor/remaining advance in lock-step - so consecutive expand calls produce the one-shot byte stream")
+    ck.rule("R-C13-SMALL", "independent of the loop structure: tinyjambu_hkdf_expand as straight paths for buffer position x block counter in {0,1,2,254,255} x EVERY outlen 0..100 (position, counter, "
+            "length concrete; data symbolic; HMAC uninterpreted): left-over bytes first, the transcript of HMAC calls of every block with the bytes they are given, min(32, remaining) bytes handed out, "
+            "counter and position afterwards, refusal (zero fill, -1) at counter 0, the last block kept in the state")
     ck.rule("R-C13-PRF", "premise: the PRF underneath is the documented TinyJAMBU-HMAC over the documented hash (all rules of C12, C10 and C11 re-run on the same IR)")
     ck.not_decided += ["output values; 'empty salt = 32 zero bytes' follows from HMAC's zero padding (C12 key-block rule with key length 0)", "HMAC itself is C12"]
     mod = Module(build.facts("H", "N0"))
@@ -22,7 +25,23 @@ def run(ck, build):
 
     def ob(cond, rule, fn, cons, ok, bad, where=None):
         return ck.ob(cond, MAP[rule], fn, cons, ok, bad, where=where)
-    kdflib.check_hkdf(ob, mod, "H/N0")
+    small_broken = None
+    try:
+        kdflib.check_hkdf_small(ob, mod, "H/N0", thorough=(ck.tier == "thorough"))
+    except Broken as e:
+        small_broken = e
+    snap = ck.snapshot()
+    try:
+        kdflib.check_hkdf(ob, mod, "H/N0")
+    except Broken as e:
+        ck.rollback(snap)
+        if not ck.violations:
+            raise
+        # the small-length rule has refuted concrete cases; that the per-class rule does not follow this code's shape does not take them back
+        ck.note("per-class rule for tinyjambu_hkdf_expand not decided: %s" % str(e)[:200])
+    else:
+        if small_broken is not None:
+            ck.note("small-length rule for tinyjambu_hkdf_expand not decided: %s" % str(small_broken)[:200])
     from . import hashlib
     kdflib.hmac_premises(ck, mod, "R-C13-PRF")
     hashlib.premises(ck, mod, "R-C13-PRF")
